@@ -468,7 +468,7 @@ class MolGraph:
         :return: this object (self) or a new instance of self.__class__
         """
         atom_attrs = {
-            mapping.get(atom, atom): attrs
+            mapping.get(atom, atom): attrs if copy is False else attrs.copy()
             for atom, attrs in self._atom_attrs.items()
         }
         neighbors = {
@@ -478,7 +478,9 @@ class MolGraph:
         }
 
         bond_attrs = {
-            Bond({mapping.get(atom, atom) for atom in bond}): attrs
+            Bond({mapping.get(atom, atom) for atom in bond}): (
+                attrs if copy is False else attrs.copy()
+            )
             for bond, attrs in self._bond_attrs.items()
         }
         if copy is True:
@@ -531,9 +533,9 @@ class MolGraph:
         :return: Subgraph
         """
         new_atoms = set(atoms)
-        atom_attrs = {atom: self._atom_attrs[atom] for atom in atoms}
+        atom_attrs = {atom: self._atom_attrs[atom].copy() for atom in atoms}
         bond_attrs = {
-            bond: attrs
+            bond: attrs.copy()
             for bond, attrs in self._bond_attrs.items()
             if new_atoms.issuperset(bond)
         }
@@ -597,8 +599,14 @@ class MolGraph:
         """
         new_graph = cls()
         for mol_graph in mol_graphs:
-            new_graph._atom_attrs.update(mol_graph._atom_attrs)
-            new_graph._bond_attrs.update(mol_graph._bond_attrs)
+            new_graph._atom_attrs.update(
+                (atom, attrs.copy())
+                for atom, attrs in mol_graph._atom_attrs.items()
+            )
+            new_graph._bond_attrs.update(
+                (bond, attrs.copy())
+                for bond, attrs in mol_graph._bond_attrs.items()
+            )
 
             for atom, neighbors in mol_graph._neighbors.items():
                 new_graph._neighbors[atom].update(neighbors)
